@@ -264,6 +264,44 @@ func c07Scenarios(tier string) []*core.Scenario {
 				},
 			}
 		}})
+	// addresses no addressing form can express, in every instruction that takes a memory operand
+	badMem := []string{"[SI+DI]", "[BX+BP]", "[DI+SI]", "[CX+SI]", "[AX+BX]", "[BX+BX]", "[SP+BP]", "[CX]", "[AX+DX]", "[SP]", "[DX+4]", "[BX+SI+DI]",
+		"[BX+EAX]", "[EAX+SI]", "[EAX+ESP*2]", "[ESP*2]", "[BX*2]", "[EAX*3]", "[EAX*2+EBX*2]", "[EAX+EBX+ECX]", "[AL]", "[ES]", "[CR0]", "[BX+CL]"}
+	memStmts := []string{"MOV AX,{M}", "MOV {M},AX", "MOV AL,{M}", "MOV BYTE {M},1", "MOV WORD {M},1", "ADD CX,{M}", "ADD WORD {M},1", "SUB {M},CX", "CMP BYTE {M},0", "AND WORD {M},0x0f",
+		"OR {M},AL", "XOR EAX,{M}", "NOT WORD {M}", "SHL WORD {M},1", "SAR BYTE {M},CL", "PUSH WORD {M}", "POP WORD {M}", "IMUL CX,{M}", "LGDT {M}", "MOV ES,{M}", "MOV {M},DS"}
+	scs = append(scs, &core.Scenario{
+		Name: "unencodable_addresses", Bound: -1,
+		Rule:   "every memory-taking statement form x every address text that no 16- or 32-bit addressing form can express (two index registers, non-address registers, mixed widths, ESP as scaled index, scale 3, three registers, 8-bit/segment/control registers): the run must produce a diagnostic or emit nothing for the statement; bytes without a diagnostic denote some OTHER address",
+		Bounds: map[string]any{"statements": memStmts, "addresses": badMem},
+		Build: func(c *core.Chooser) *core.Case {
+			st := memStmts[c.Pick("stmt", len(memStmts))]
+			m := badMem[c.Pick("mem", len(badMem))]
+			mode := []int{16, 32}[c.Pick("mode", 2)]
+			stmt := strings.ReplaceAll(st, "{M}", m)
+			head := bitsHeader(mode)
+			src := head + "pre:\n" + sentinelLine(0) + stmtLine(stmt) + "post:\n" + sentinelLine(1) + "\tDW post\n"
+			base := head + "pre:\n" + sentinelLine(0) + "post:\n" + sentinelLine(1) + "\tDW post\n"
+			return &core.Case{
+				Key:  fmt.Sprintf("BITS %d|%s", mode, stmt),
+				Feat: feat("stmt", st, "mem", m, "mode", fmt.Sprint(mode)),
+				Srcs: []string{src, base},
+				Judge: func(rs []*core.Result) core.Verdict {
+					v := core.Verdict{Nontrivial: true, NTKey: stmt}
+					if core.ReportsDiag(rs[0], rs[1]) {
+						v.Outcome = "diagnosed"
+						return v
+					}
+					v.Outcome = "accepted"
+					region, _ := between(rs[0].Out, 0, 1)
+					dev := "accepted_silently"
+					if len(region) == 0 {
+						dev = "dropped_silently"
+					}
+					v.Fails = []core.Fail{{Facet: "unencodable_address", Dev: dev, Detail: fmt.Sprintf("%s assembled without any diagnostic to %x", stmt, region)}}
+					return v
+				},
+			}
+		}})
 	// file-level shapes
 	prefixes := []string{"", "\n", " \n", ";c\n", "\n\n", "\t\n"}
 	firsts := []string{"\tMOV AX,1\n", "\tmov ax,1\n", "\t@@@\n", "\tMOV AX,\n", "lab:\n", "\tFOO AX\n", "\tDB 1\n\t)\n", "\tMOV AX,1 2\n"}
